@@ -167,7 +167,9 @@ func (e *Engine) SelectTag(next bool) {
 	// Ensure the completion keymaps are set.
 	e.adjustSelectKeymap()
 
-	if len(e.groups) <= 1 {
+	// Nothing to cycle through with a single group, or
+	// when no group has any candidate (left) to select.
+	if len(e.groups) <= 1 || e.noCompletions() {
 		return
 	}
 
